@@ -5,6 +5,7 @@ import (
 	"encoding/hex"
 	"fmt"
 
+	"github.com/cuteLittleDevil/go-jt808/protocol/jt808"
 	"github.com/cuteLittleDevil/go-jt808/shared/consts"
 	"github.com/cuteLittleDevil/go-jt808/terminal"
 
@@ -99,7 +100,8 @@ func genC20(seed uint64, tier string, idx int) (p *Plan) {
 		for i := 0; i < n; i++ {
 			cmd := termCmds[g.r.intn(len(termCmds))]
 			var raw []byte
-			if g.r.chance(45) {
+			custom := g.r.chance(45)
+			if custom {
 				body := g.wellFormedBody(cmd, v19, bcd)
 				// custom bodies stay well-formed: the property speaks of frames whose body parses with the
 				// matching message type; the reply to a body the type rejects is outside its domain
@@ -107,7 +109,7 @@ func genC20(seed uint64, tier string, idx int) (p *Plan) {
 			} else {
 				raw = t.CreateDefaultCommandData(consts.JT808CommandType(cmd))
 			}
-			frames = append(frames, SentFrame{ID: cmd, Serial: uint16(i + 1), Raw: raw, Valid: true, Name: HexStr(phone)})
+			frames = append(frames, SentFrame{ID: cmd, Serial: uint16(i + 1), Raw: raw, Valid: true, Name: HexStr(phone), Default: !custom})
 			if g.r.chance(40) {
 				// a user predicts the reply right away, for whatever platform serial: must not disturb the
 				// simulator's own serial progression
@@ -123,16 +125,21 @@ func genC20(seed uint64, tier string, idx int) (p *Plan) {
 
 // enumC20: serial wrap of the terminal simulator (65536+ frames from one Terminal value).
 func enumC20(tier string) (int, func(i int) *Plan) {
-	if tier != "thorough" {
-		return 0, nil
+	n := 1
+	if tier == "thorough" {
+		n = 2
 	}
-	return 1, func(i int) *Plan {
-		p, g := newPlan("C20", 0xC20000, tier)
+	return n, func(i int) *Plan {
+		p, g := newPlan("C20", 0xC20000+uint64(i), tier)
 		phone := "13812345678"
-		t := terminal.New(terminal.WithHeader(consts.JT808Protocol2013, phone))
-		bcd, _ := hex.DecodeString(fmt.Sprintf("%012s", phone))
-		ci := g.addConn("service", false, bcd)
-		p.Expect.Extra["ver0"] = int64(consts.JT808Protocol2013)
+		ver, width := consts.JT808Protocol2013, 12
+		if i == 1 {
+			ver, width = consts.JT808Protocol2019, 20
+		}
+		t := terminal.New(terminal.WithHeader(ver, phone))
+		bcd, _ := hex.DecodeString(fmt.Sprintf("%0*s", width, phone))
+		ci := g.addConn("service", i == 1, bcd)
+		p.Expect.Extra["ver0"] = int64(ver)
 		var frames []SentFrame
 		for k := 0; k < 65536+300; k++ {
 			frames = append(frames, SentFrame{ID: 0x0002, Serial: uint16(k + 1), Raw: t.CreateDefaultCommandData(consts.T0002HeartBeat), Valid: true, Name: HexStr(phone)})
@@ -143,6 +150,29 @@ func enumC20(tier string) (int, func(i int) *Plan) {
 		p.Note = "terminal serial wrap-around"
 		return p
 	}
+}
+
+// defaultBodyRoundTrip parses a generated frame's body with a fresh value of the matching message type and, where
+// the type can encode, compares the re-encoded body with the original.
+func defaultBodyRoundTrip(raw []byte, id uint16) string {
+	mk := modelTable(1)[consts.JT808CommandType(id)]
+	if mk == nil {
+		return ""
+	}
+	msg := jt808.NewJTMessage()
+	if err := msg.Decode(raw); err != nil {
+		return "frame does not decode: " + err.Error()
+	}
+	h := mk()
+	if err := h.Parse(msg); err != nil {
+		return "body does not parse: " + err.Error()
+	}
+	if enc, ok := h.(interface{ Encode() []byte }); ok {
+		if got := enc.Encode(); !bytes.Equal(got, msg.Body) {
+			return fmt.Sprintf("body re-encodes to %x", got)
+		}
+	}
+	return ""
 }
 
 func checkC20(r *Result) []Violation {
@@ -179,6 +209,15 @@ func checkC20(r *Result) []Violation {
 				return vs
 			}
 			decoded = append(decoded, d)
+			// a frame with the simulator's own default body: the body parses with the matching message type (a
+			// fresh value of it) and re-encodes to the identical bytes - whatever the Terminal value was used for
+			// before (custom bodies, ExpectedReply calls)
+			if f.Default {
+				if why := defaultBodyRoundTrip(f.Raw, f.ID); why != "" {
+					bad("default_body_not_parseable", fmt.Sprintf("frame %d (command %#04x, version %v, phone %s) with the simulator's default body: %s: %x", k, f.ID, ver, phone, why, []byte(f.Raw)), 0)
+					return vs
+				}
+			}
 		}
 		// replies of the live server, paired in order with the reply-bearing requests of the reference model
 		var reps []Ev
